@@ -283,6 +283,19 @@ class Evaluator(object):
                 if st.finalbody:
                     self.block(st.finalbody, env, fi)
             return
+        if isinstance(st, ast.For):
+            it = self.expr(st.iter, env, fi)
+            if isinstance(it, K) and isinstance(it.v, (tuple, list, str)):
+                elems = [K(x) for x in it.v]
+            elif isinstance(it, L):
+                elems = list(it.elts)
+            else:
+                raise AnalysisError("for loop over %r not modelled (%s)" % (it, fi.fq))
+            for x in elems:
+                self.assign(st.target, x, env, fi)
+                self.block(st.body, env, fi)
+            self.block(st.orelse, env, fi)
+            return
         if isinstance(st, ast.AugAssign) and self.lenient:
             self.expr(st.value, env, fi)
             self.assign(st.target, Sym("opaque:" + dump(st)[:60]), env, fi)
@@ -551,8 +564,27 @@ class Evaluator(object):
             if isinstance(base, L):
                 base.elts.append(args[0])
                 return K(None)
+        if isinstance(f, ast.Attribute) and f.attr in ("startswith", "endswith", "lstrip", "rstrip", "strip", "lower", "upper",
+                                                       "format", "split", "rpartition", "replace"):
+            try:
+                b0 = self.expr(f.value, env, fi)
+            except AnalysisError:
+                b0 = None
+            if isinstance(b0, K) and isinstance(b0.v, str) and all(isinstance(a, K) for a in args) and not kwargs:
+                r0 = getattr(b0.v, f.attr)(*[a.v for a in args])      # constant folding on literals
+                return K(tuple(r0) if isinstance(r0, list) else r0)
         if isinstance(f, ast.Attribute) and f.attr == "format":
             return Sym("formatted-string", truthy=True, pytype=str)
+        if isinstance(f, ast.Attribute) and f.attr in ("add", "append") and len(args) == 1:
+            b0 = self.expr(f.value, env, fi)
+            if isinstance(b0, L):
+                b0.elts.append(args[0])
+                return K(None)
+        if isinstance(f, ast.Attribute) and f.attr == "update" and len(args) == 1:
+            b0 = self.expr(f.value, env, fi)
+            if isinstance(b0, L) and isinstance(args[0], (K, L)):
+                b0.elts.extend([K(x) for x in args[0].v] if isinstance(args[0], K) else args[0].elts)
+                return K(None)
         if isinstance(f, ast.Attribute) and isinstance(f.value, ast.Name) and f.value.id in ("_logger", "logging"):
             return K(None)
         if fname == "isinstance" and len(args) == 2:
